@@ -116,6 +116,7 @@ func (c *ctx) checkCase(fam, shape, class, lock string, p types.SpendPolicy, e e
 		return false, false
 	}
 	b.SetAdd("verify_outcomes", cls)
+	entropyReached := false // the in-order key walk meets an entropy key while signatures are still outstanding
 	if want != want2 {
 		uc, isUC := p.Type.(types.PolicyTypeUnlockConditions)
 		if isUC && hasEntropy(uc.PublicKeys) && !want && want2 {
@@ -125,6 +126,7 @@ func (c *ctx) checkCase(fam, shape, class, lock string, p types.SpendPolicy, e e
 			// that count has signed, so the meaning holds; judge by it.
 			b.Count("uc_unused_entropy_key_before_used_keys", 1)
 			want, reason = true, ""
+			entropyReached = true
 		} else {
 			b.Inconclusive("oracle self-disagreement (functional evaluator vs flatten/zip formulation)")
 			b.Sample(map[string]any{"kind": "ORACLE SELF-DISAGREEMENT", "case": mkWit(fam, shape, class, p, e, sigs, pre, fmt.Sprint(want, "/", want2), cls)})
@@ -146,6 +148,10 @@ func (c *ctx) checkCase(fam, shape, class, lock string, p types.SpendPolicy, e e
 			fmt.Sprintf("Verify accepted but the policy's meaning does not hold (%s) [%s %s %s]", reason, fam, trunc(shape, 120), class),
 			mkWit(fam, shape, class, p, e, sigs, pre, "reject:"+reason, cls))
 	default:
+		if cls == "uc-entropy" && !entropyReached {
+			// not the recorded in-order-walk case: the entropy key is listed where the walk never gets to
+			cls += "/key-never-reached-by-the-walk"
+		}
 		b.Violate("C14/verify-rejects/"+cls,
 			fmt.Sprintf("Verify rejected (%s) although the policy's meaning holds and no witness is left over [%s %s %s]", cls, fam, trunc(shape, 120), class),
 			mkWit(fam, shape, class, p, e, sigs, pre, "accept", cls))
